@@ -347,8 +347,28 @@ func (group *Group) delRtspPubSession(session *rtsp.PubSession) {
 func (group *Group) delPullSession(session base.IObject) {
 	Log.Debugf("[%s] [%s] del PullSession from group.", group.UniqueKey, session.UniqueKey())
 
+	// 注意，pull session有可能没有加入到group中就结束了（比如连接失败，或者回源成功前已经有其他输入流加入，AddXxxPullSession 被拒绝），
+	// 此时group中的输入流是别人的，不能动，只需要标记本次pull已经结束
+	if !group.isAttachedPullSession(session) {
+		Log.Warnf("[%s] del pull session but not match. del session=%s, group session=%s",
+			group.UniqueKey, session.UniqueKey(), group.pullSessionUniqueKey())
+		group.pullProxy.isSessionPulling = false
+		return
+	}
+
 	group.resetRelayPullSession()
 	group.delIn()
+}
+
+// isAttachedPullSession session是否为当前已经加入到group中的pull session
+func (group *Group) isAttachedPullSession(session base.IObject) bool {
+	if group.pullProxy.rtmpSession != nil && session == base.IObject(group.pullProxy.rtmpSession) {
+		return true
+	}
+	if group.pullProxy.rtspSession != nil && session == base.IObject(group.pullProxy.rtspSession) {
+		return true
+	}
+	return false
 }
 
 // ---------------------------------------------------------------------------------------------------------------------
